@@ -33,7 +33,7 @@ type call struct {
 	test                        string // "" | eql | lam | eqv | not
 	count                       string // "" | 0 | 1 | 2 | -1 | nil
 	fromEnd                     bool
-	init                        bool // reduce :initial-value
+	init                        bool   // reduce :initial-value
 	subEnd                      string // subseq optional end: "" | nil | number
 }
 
